@@ -32,62 +32,116 @@ def layouts(seed, k):
 
 
 def plan(prop, tier, seed):
+    """(build variant, bounds+alphabet, extra flags) per exploration.
+
+    Bounds: n objects, e stored strong handles in total, m per ordered pair, x
+    outside strong handles per object, w Weak handles per object, ws stored
+    Weak handles, s armed destructor scripts, elide = elided unadopts.
+    Quick tiers are sized for < 1 minute on 16 cores, thorough tiers for
+    minutes (measured wall times are in the evidence).
+    """
     q = tier == "quick"
     L = lambda k: layouts(seed, k)
     if prop in ("C01", "C03"):
         if q:
-            return [("asan", f"n=3,e=3,m=2,x=2,{CORE},layouts={L(3)}", [])]
+            return [
+                ("asan", f"n=3,e=3,m=2,x=2,{CORE},late=1,layouts={L(3)}", []),
+                ("asan", f"n=3,e=4,m=2,x=1,plain=1,sameref=1,bare=0,keep=0,layouts={L(2)}", []),
+            ]
         return [
             ("asan", f"n=3,e=4,m=3,x=2,{CORE},late=1,layouts={L(6)}", []),
-            ("asan", f"n=4,e=4,m=2,x=1,{CORE},bare=0,layouts={L(2)}", []),
+            ("asan", f"n=4,e=4,m=2,x=1,plain=1,sameref=0,bare=0,keep=0,layouts={L(2)}", []),
+            ("asan", f"n=3,e=5,m=2,x=1,plain=1,sameref=1,bare=0,keep=0,layouts={L(2)}", []),
         ]
     if prop in ("C02", "C04", "C06"):
         if q:
-            return [("asan", f"n=3,e=3,m=2,x=2,w=1,ws=1,weak=1,{CORE},bare=0,layouts={L(2)}", [])]
+            return [
+                ("asan", f"n=3,e=2,m=2,x=2,w=1,ws=1,weak=1,plain=1,sameref=1,bare=0,keep=0,layouts={L(2)}", []),
+                ("asan", f"n=3,e=3,m=2,x=2,{CORE},layouts={L(2)}", []),
+            ]
         return [
-            ("asan", f"n=3,e=3,m=2,x=2,w=2,ws=2,weak=1,{CORE},layouts={L(4)}", []),
-            ("asan", f"n=3,e=4,m=3,x=2,w=1,ws=1,weak=1,{CORE},bare=0,layouts={L(2)}", []),
+            ("asan", f"n=3,e=3,m=2,x=2,w=1,ws=1,weak=1,plain=1,sameref=1,bare=0,keep=0,layouts={L(2)}", []),
+            ("asan", f"n=2,e=4,m=3,x=2,w=2,ws=2,weak=1,{CORE},layouts={L(4)}", []),
+            ("asan", f"n=3,e=4,m=3,x=2,{CORE},late=1,layouts={L(4)}", []),
         ]
     if prop == "C05":
         if q:
-            return [("asan", f"n=3,e=2,m=1,x=1,w=2,ws=2,weak=1,plain=1,sameref=0,bare=0,keep=0,s=1,sown=1,layouts={L(2)}", [])]
-        return [("asan", f"n=3,e=3,m=2,x=2,w=2,ws=2,weak=1,plain=1,sameref=1,bare=0,keep=0,s=1,sown=1,layouts={L(4)}", [])]
+            return [("asan", f"n=3,e=2,m=1,x=1,w=1,ws=1,weak=1,plain=1,sameref=0,bare=0,keep=0,s=1,sown=1,layouts={L(2)}", [])]
+        return [
+            ("asan", f"n=3,e=3,m=2,x=1,w=1,ws=1,weak=1,plain=1,sameref=0,bare=0,keep=0,s=1,sown=1,layouts={L(2)}", []),
+            ("asan", f"n=2,e=3,m=2,x=2,w=2,ws=2,weak=1,plain=1,sameref=0,bare=0,keep=0,s=1,sown=1,layouts={L(3)}", []),
+        ]
     if prop == "C08":
         if q:
-            return [("asan", f"n=3,e=3,m=2,x=2,{CORE},probe=1,layouts={L(2)}", [])]
-        return [("asan", f"n=3,e=4,m=3,x=2,{CORE},late=1,probe=1,layouts={L(4)}", [])]
+            return [
+                ("asan", f"n=3,e=3,m=2,x=2,plain=1,sameref=0,bare=1,keep=1,probe=1,layouts={L(2)}", []),
+                ("asan", f"n=3,e=3,m=2,x=2,{CORE},layouts={L(2)}", []),
+            ]
+        return [
+            ("asan", f"n=3,e=4,m=3,x=2,plain=1,sameref=0,bare=1,keep=1,late=1,probe=1,layouts={L(3)}", []),
+            ("asan", f"n=3,e=4,m=3,x=2,{CORE},late=1,layouts={L(3)}", []),
+        ]
     if prop == "C09":
         if q:
-            return [("asan", f"n=3,e=3,m=2,x=2,plain=0,sameref=1,bare=0,keep=0,w=1,ws=1,weak=1,probe=1,layouts={L(6)}", [])]
+            return [
+                ("asan", f"n=3,e=3,m=2,x=2,plain=0,sameref=0,bare=0,keep=0,probe=1,layouts={L(6)}", []),
+                ("asan", f"n=3,e=2,m=2,x=1,plain=0,sameref=0,bare=0,keep=0,w=1,ws=1,weak=1,probe=1,layouts={L(4)}", []),
+            ]
         return [
-            ("asan", f"n=3,e=4,m=3,x=2,plain=0,sameref=1,bare=0,keep=0,w=1,ws=1,weak=1,probe=1,layouts={L(16)}", []),
+            ("asan", f"n=3,e=4,m=3,x=2,plain=0,sameref=0,bare=0,keep=0,probe=1,layouts={L(16)}", []),
+            ("asan", f"n=3,e=3,m=2,x=2,plain=0,sameref=0,bare=0,keep=0,w=1,ws=1,weak=1,probe=1,layouts={L(8)}", []),
             ("asan", f"n=4,e=4,m=2,x=1,plain=0,sameref=0,bare=0,keep=0,probe=1,layouts={L(6)}", []),
+            ("asan", f"n=3,e=3,m=2,x=2,plain=0,sameref=1,bare=0,keep=0,layouts={L(8)}", []),
         ]
     if prop == "C10":
         if q:
-            return [("asan", f"n=3,e=2,m=1,x=1,w=1,ws=0,weak=1,plain=1,sameref=0,bare=0,keep=0,s=1,sapi=1,layouts={L(2)}", [])]
-        return [("asan", f"n=3,e=3,m=2,x=1,w=1,ws=1,weak=1,plain=1,sameref=0,bare=0,keep=0,s=2,sapi=1,layouts={L(3)}", [])]
+            return [("asan", f"n=3,e=2,m=1,x=2,plain=1,sameref=0,bare=0,keep=0,s=1,sapi=1,layouts={L(2)}", [])]
+        return [
+            ("asan", f"n=3,e=2,m=1,x=1,w=1,ws=0,weak=1,plain=1,sameref=0,bare=0,keep=0,s=1,sapi=1,layouts={L(2)}", []),
+            ("asan", f"n=3,e=3,m=2,x=1,plain=1,sameref=0,bare=0,keep=0,s=1,sapi=1,layouts={L(3)}", []),
+            ("asan", f"n=3,e=2,m=1,x=1,plain=1,sameref=0,bare=0,keep=0,s=2,sapi=1,layouts={L(2)}", []),
+        ]
     if prop == "C11":
         if q:
-            return [("asan", f"n=3,e=3,m=2,x=1,w=1,ws=1,weak=1,plain=1,sameref=0,bare=0,keep=0,s=1,spanic=1,layouts={L(3)}", [])]
-        return [("asan", f"n=3,e=4,m=2,x=2,w=1,ws=1,weak=1,plain=1,sameref=1,bare=0,keep=0,s=1,spanic=1,layouts={L(4)}", [])]
+            return [("asan", f"n=3,e=2,m=2,x=1,w=1,ws=1,weak=1,plain=1,sameref=0,bare=0,keep=0,s=1,spanic=1,layouts={L(2)}", [])]
+        return [
+            ("asan", f"n=3,e=3,m=2,x=1,w=1,ws=1,weak=1,plain=1,sameref=0,bare=0,keep=0,s=1,spanic=1,layouts={L(3)}", []),
+            ("asan", f"n=3,e=3,m=2,x=2,plain=1,sameref=1,bare=0,keep=0,s=1,spanic=1,layouts={L(3)}", []),
+        ]
     if prop == "C12":
         if q:
             return [("asan", f"n=3,e=2,m=2,x=2,w=1,ws=0,weak=1,plain=1,sameref=0,bare=0,keep=0,consume=1,layouts={L(2)}", [])]
-        return [("asan", f"n=3,e=3,m=2,x=2,w=1,ws=1,weak=1,plain=1,sameref=1,bare=0,keep=0,consume=1,layouts={L(3)}", [])]
+        return [
+            ("asan", f"n=3,e=3,m=2,x=2,w=1,ws=0,weak=1,plain=1,sameref=0,bare=0,keep=0,consume=1,layouts={L(2)}", []),
+            ("asan", f"n=3,e=2,m=2,x=2,w=1,ws=1,weak=1,plain=1,sameref=1,bare=0,keep=0,consume=1,layouts={L(3)}", []),
+        ]
     if prop == "C13":
         if q:
-            return [("asan", f"n=3,e=3,m=2,x=2,{CORE},bare=0,elide=1,layouts={L(2)}", [])]
-        return [("asan", f"n=3,e=4,m=2,x=2,{CORE},bare=0,elide=2,layouts={L(3)}", [])]
+            return [("asan", f"n=3,e=2,m=2,x=2,plain=1,sameref=1,bare=0,keep=1,elide=1,layouts={L(2)}", [])]
+        return [
+            ("asan", f"n=3,e=3,m=2,x=2,plain=1,sameref=1,bare=0,keep=1,elide=1,layouts={L(2)}", []),
+            ("asan", f"n=3,e=3,m=2,x=1,plain=1,sameref=0,bare=0,keep=0,elide=2,layouts={L(2)}", []),
+        ]
     if prop == "C14":
         if q:
             return [("plain", f"n=3,e=3,m=2,x=2,{CORE},layouts=0", ["--cost"])]
-        return [("plain", f"n=3,e=4,m=3,x=2,w=1,ws=1,weak=1,{CORE},layouts=0+1", ["--cost"])]
+        return [
+            ("plain", f"n=3,e=4,m=3,x=2,{CORE},layouts=0+1", ["--cost"]),
+            ("plain", f"n=3,e=3,m=2,x=2,w=1,ws=1,weak=1,plain=1,sameref=1,bare=1,keep=0,layouts=0", ["--cost"]),
+        ]
+    if prop == "C16":
+        if q:
+            return [("asan", f"n=3,e=3,m=2,x=1,plain=1,sameref=0,bare=0,keep=0,s=1,sdead=1,layouts={L(2)}", [])]
+        return [
+            ("asan", f"n=3,e=4,m=2,x=1,plain=1,sameref=0,bare=0,keep=0,s=1,sdead=1,layouts={L(4)}", []),
+            ("asan", f"n=3,e=3,m=2,x=2,plain=1,sameref=1,bare=0,keep=0,s=1,sdead=1,layouts={L(2)}", []),
+        ]
     raise KeyError(prop)
 
 
 LEVEL = {
     "C11": "fault_enumeration",
+    "C16": "exploration",
 }
 
 # which oracle clauses a property's check answers for, in histories of the plain alphabet
@@ -101,30 +155,38 @@ CONSUMING = ("tryunwrap", "dropunwrapped", "makemut", "getmut", "rawroundtrip", 
 
 
 def attribute(clause, sig, history):
-    """Which property does this violation belong to? (DESIGN.md 2.4 / 5.3)"""
+    """Which property does this violation belong to? (DESIGN.md 2.4 / 5.3)
+
+    A clause belongs to the property that states it. Histories that use an
+    extended alphabet (destructor scripts, handle-consuming calls, elided
+    unadopt) are only generated by the check of the property that extends the
+    alphabet, and there the clauses that property lists are attributed to it;
+    everything else is "OTHER" (counted, reported by its own check).
+    """
     ops = history.split(",") if history else []
     scripts = [o.split(":")[2] for o in ops if o.startswith("arm:")]
     if clause == "MACHINERY":
         return "MACHINERY"
     if any(s == "panic" for s in scripts):
-        return "C11"
+        return "C11" if clause in ("K1", "K2", "K5", "K6", "K11", "CRASH") else "OTHER"
     if scripts:
         fam = scripts[0].split(".")[0]
-        if fam in ("upgradeown",) or (fam == "upgraderoot" and clause == "K5"):
-            return "C05" if clause in ("K5", "CRASH", "K2") else BASE_CLAUSE.get(clause, "C10")
+        if fam in ("upgradeown", "upgraderoot") and not any(s.split(".")[0] not in ("upgradeown", "upgraderoot") for s in scripts):
+            # C05: Weak::upgrade asked from inside destructors
+            return "C05" if clause in ("K5", "K2", "CRASH") else "OTHER"
         if fam in ("dropown", "cloneown"):
-            return "C16"
-        return "C10"
+            return "C16" if clause in ("K16", "K6", "K2", "CRASH") else "OTHER"
+        return "C10" if clause in ("K1", "K2", "K3", "K4", "K5", "K6", "K10", "CRASH") and "loopback=1" not in sig else "OTHER"
     if any(o.split(":")[0] in CONSUMING for o in ops):
-        return "C12"
+        return "C12" if clause in ("K1", "K2", "K4", "K5", "K6", "K8", "K12", "CRASH") and "loopback=1" not in sig else "OTHER"
     if any(o.startswith("take:") and o.endswith(":elide") for o in ops):
-        return "C13"
+        return "C13" if clause in ("K13", "K1", "K2", "CRASH") else "OTHER"
     if clause == "CRASH":
         # a sanitizer report / crash: inside the library it is C02's "touches freed
         # or moved-out memory"; a crash while the harness reads through a handle it
         # holds is C01's "dereferencing a held handle yields the intact value"
         return "C01" if ":harness:" in sig else "C02"
-    return BASE_CLAUSE.get(clause, "C02")
+    return BASE_CLAUSE.get(clause, "OTHER")
 
 
 def load_known():
@@ -189,6 +251,12 @@ def write_replay(prop, clause, sig, spec, variant, flags, wit):
 def replay(path, build, extra=()):
     with open(path) as f:
         doc = json.load(f)
+    if doc.get("engine") == "diffrc":
+        import engines
+        return engines.replay_c07(doc, build)
+    if doc.get("engine") == "scale":
+        import engines
+        return engines.replay_c15(doc, build)
     exe = mc_exe(build, doc.get("build", "asan"))
     cmd = [exe, "replay", "--cfg", doc["config"], "--layout", str(doc["layout"]), "--history", doc["history"]] + list(doc.get("flags", [])) + list(extra)
     if "probe=1" in doc["config"]:
@@ -205,7 +273,7 @@ def replay(path, build, extra=()):
 
 def run_property(prop, tier, seed, build):
     t0 = time.time()
-    if prop in ("C07", "C15", "C16"):
+    if prop in ("C07", "C15"):
         import engines
         return engines.run(prop, tier, seed, build)
     try:
@@ -319,6 +387,7 @@ def run_property(prop, tier, seed, build):
         "wall_s": round(time.time() - t0, 2),
         "violations": n_viol,
     }
+    cov["expected_process_aborts_observed"] = sum(s.get("expected_aborts", 0) for s in summaries)
     if LEVEL.get(prop) == "fault_enumeration":
         ev["coverage"]["rule"] = "every (reachable state, object) pair of the bounded space gets a panicking destructor armed (exactly one per history), then every continuation; " + cov["rule"]
     os.makedirs(EVIDENCE, exist_ok=True)
